@@ -117,7 +117,19 @@ class ConcreteCtx:
         self.installed.append((obj, name, vars(obj).get(name, _MISSING)))
         setattr(obj, name, value)
 
+    def on_exit(self, fn):
+        """cleanup to run when the path / replay ends"""
+        if not hasattr(self, "_cleanups") or self._cleanups is None:
+            self._cleanups = []
+        self._cleanups.append(fn)
+
     def unpatch_all(self):
+        for fn in reversed(getattr(self, "_cleanups", None) or []):
+            try:
+                fn()
+            except Exception:  # noqa: BLE001
+                pass
+        self._cleanups = []
         for obj, name, old in reversed(self.installed):
             if old is _MISSING:
                 try:
